@@ -18,13 +18,15 @@ func Workloads(args *core.Args, props map[string]bool) []Workload {
 		{JournalMode: "delete", PageSize: 4096, CacheSize: 10, Steps: 14, Seed: s*100 + 1, ModeSwitch: true, Replica: true},
 		{JournalMode: "wal", PageSize: 512, CacheSize: 8, Steps: 14, Seed: s*100 + 2, AutoVacuum: "incremental", Replica: true},
 		{JournalMode: "truncate", PageSize: 1024, CacheSize: 12, Steps: 12, Seed: s*100 + 3},
+		// a cache that never spills: pages allocated and freed inside a transaction are never written
+		{JournalMode: "delete", PageSize: 4096, CacheSize: 5000, Steps: 16, Seed: s*100 + 4, AllocFree: true, Replica: true},
 	}
 	if args.Quick() {
 		return ws
 	}
 	for i, m := range []string{"delete", "truncate", "persist", "wal"} {
 		for j, ps := range []int{512, 4096, 65536} {
-			ws = append(ws, Workload{JournalMode: m, PageSize: ps, CacheSize: 6 + 5*j, Steps: 40, Seed: s*100 + int64(10+i*3+j),
+			ws = append(ws, Workload{JournalMode: m, PageSize: ps, CacheSize: []int{6, 11, 4000}[j], Steps: 40, Seed: s*100 + int64(10+i*3+j), AllocFree: j == 2,
 				AutoVacuum: []string{"", "incremental", "full"}[(i+j)%3], Replica: (i+j)%2 == 0, Compress: j == 1, ModeSwitch: j != 1})
 		}
 	}
